@@ -3,7 +3,7 @@
    the source ([src_shape]); after every line prints the directory listing
        <name hex>:<mtime ms>:<content hex>;...        (sorted by name hex)
      case <L> <N> <opts> <gran ms> <base> <suffix> <t0> <tz min east>   fresh directory, sink constructed at t0
-     w <payload> | adv <ms> | restart | put <name> <bytes>
+     w <payload> [<QtMsgType 0..4, default 4 = info>] | adv <ms> | restart | put <name> <bytes>
    mode "oracle": evaluates the extracted boolean oracles on a snapshot reconstructed by the check
      cfg <L> <N> <opts> <base> <suffix>                   (also clears the accumulated history)
      h <recs>                                             append records to the history, prints "ok"
@@ -27,6 +27,8 @@ let unhex h = if h = "-" then [] else
   for i = n - 1 downto 0 do r := tbl.(int_of_string ("0x" ^ String.sub h (2 * i) 2)) :: !r done; !r
 let hex l = let b = Buffer.create 64 in List.iter (fun c -> Buffer.add_string b (Printf.sprintf "%02x" (int_of_n c))) l;
   if Buffer.length b = 0 then "-" else Buffer.contents b
+(* QtMsgType: QtDebugMsg 0, QtWarningMsg 1, QtCriticalMsg 2, QtFatalMsg 3, QtInfoMsg 4 *)
+let mtype_of = function 0 -> TDebug | 1 -> TWarning | 2 -> TCritical | 3 -> TFatal | 4 -> TInfo | _ -> failwith "message type"
 let gran_of = function 1 -> G1ms | 1000 -> G1s | 2000 -> G2s | _ -> failwith "granularity"
 let mkcfg l n o g b s tz = { cL = z_of_int l; cN = z_of_int n; startup = o land 1 <> 0; daily = o land 2 <> 0;
                           compress = o land 4 <> 0; cgran = gran_of g; cbase = unhex b; csuffix = unhex s; ctz = z_of_int tz }
@@ -71,7 +73,8 @@ let () =
        | "case" :: l :: n :: o :: g :: b :: s :: t0 :: tz :: _ ->      (* further fields (codec, quiet) concern the harness only *)
          cfg := mkcfg (int_of_string l) (int_of_string n) (int_of_string o) (int_of_string g) b s (int_of_string tz);
          w := w0 !cfg (z_of_int (int_of_string t0))
-       | ["w"; p] -> w := step src_shape !cfg !w (Write (unhex p))
+       | ["w"; p] -> w := step src_shape !cfg !w (Write (TInfo, unhex p))
+       | ["w"; p; ty] -> w := step src_shape !cfg !w (Write (mtype_of (int_of_string ty), unhex p))
        | ["adv"; d] -> w := step src_shape !cfg !w (Advance (z_of_int (int_of_string d)))
        | ["restart"] -> w := step src_shape !cfg !w Restart
        | ["put"; n; b] -> w := step src_shape !cfg !w (PutForeign (unhex n, unhex b))
